@@ -8,6 +8,8 @@ import SharkVerif.Model.Hypervolume
 import SharkVerif.Model.HV3D
 import SharkVerif.Model.DCSort
 import SharkVerif.Model.Subset2D
+import SharkVerif.Model.HOY
+import SharkVerif.Model.Contrib3D
 open SharkVerif.Pareto SharkVerif.HV SharkVerif.DC
 
 def showL {α} [ToString α] (l : List α) : String :=
@@ -32,15 +34,16 @@ def step (line : String) : String :=
           let m := m.toNat; let n := n.toNat; let k := k.toNat
           let r := nums.take m
           let S := chunk m n (nums.drop m)
-          let all : List Int :=
-            if alg == "2d" then
-              -- model of HypervolumeContribution2D, re-ordered by original index
-              let cs := contribs2d S r
-              (List.range n).map fun i => ((cs.find? fun c => c.2 == i).map (·.1)).getD (-1)
-            else (List.range n).map fun i => contribSpec S r i
-          let sorted := sortAsc all
-          let sel := if kind == "small" then sorted.take k else (sorted.reverse).take k
-          s!"all={showL all} sel={showL sel}"
+          -- the (contribution, index) pairs computed by the modelled routine
+          let cs : List KV :=
+            if alg == "2d" then contribs2d S r
+            else if alg == "3d" then contribs3d S r
+            else if alg == "md" then contribsMD SharkVerif.DC.nds hvDisp S r
+            else contribsDisp S r
+          let all : List Int := (List.range n).map fun i => ((cs.find? fun c => c.2 == i).map (·.1)).getD (-1)
+          let sel := (if kind == "small" then smallestOf cs k else largestOf cs k).map (·.1)
+          let spec : List Int := (List.range n).map fun i => contribSpec S r i
+          s!"all={showL all} sel={showL sel} spec={showL spec}"
         | _ => "bad-op"
       | _ => "bad-op"
     else
@@ -67,7 +70,7 @@ def step (line : String) : String :=
         let parts : List String :=
           (if m == 2 then [s!"hv2d={hv2d S r}"] else []) ++
           (if m == 3 then [s!"hv3d={hv3d S r}"] else []) ++
-          (if m ≥ 3 then [s!"hoy={spec}"] else []) ++
+          (if m ≥ 3 then [s!"hoy={SharkVerif.HOY.hvHoy S r}"] else []) ++
           (if S.length ≤ 12 then [s!"wfg={hvWfg S r}"] else []) ++ [s!"disp={spec}"]
         " ".intercalate parts
       | "ssp", k :: n :: nums =>
